@@ -474,6 +474,8 @@ pub fn parent_main(args: &Args) -> ! {
         }
     }
     recs.sort_by_key(|r| (r["ii"].as_u64().unwrap_or(0), r["i"].as_u64().unwrap_or(0)));
+    let run_digest = report::digest_records(recs.iter());
+    println!("DIGEST {id} {run_digest}");
     let mut violations: Vec<(String, Value)> = vec![];
     let mut known_hits: BTreeMap<String, (u64, String)> = BTreeMap::new();
     for r in &recs {
@@ -522,6 +524,7 @@ pub fn parent_main(args: &Args) -> ! {
     ev.exhaustive = Some(true);
     ev.extra.insert("containers".into(), json!(images.values().collect::<Vec<_>>()));
     ev.extra.insert("workers".into(), json!(n));
+    ev.extra.insert("run_digest".into(), json!(run_digest));
     ev.extra.insert(
         "real_vs_stub".into(),
         json!({"real": ["reader::Container, FsLocator/ChainedLocator, ManifestPack, ContentPack, codecs", "file system (tmpfs)"],
